@@ -121,6 +121,45 @@ R4 = {
  "C18_H": ("master polls per-Future status channels; jobs without a Future leave their status in the transport", "queue way, jobs enqueued without a Future", False, "fire-and-forget jobs between the sample points (which act as barriers)"),
 }
 
+R5 = {
+ "C01_I": ("rename/delete/template classes cached by generated class name ('.' and '_' collide)", "two specs whose keys are equal after sanitisation resolved in one process", False, "context keys x.y and x_y in the key pool"),
+ "C01_J": ("evaluation namespace merges whitelisted functions over the variables", "sweep variable named like a whitelisted function (max, abs, float)", False, "sweep variable names drawn from the whitelisted function names as well"),
+ "C02_I": ("probe context_key registered before the node's own parameters are classified", "sweep probe whose from_context key equals its context_key", True, ""),
+ "C02_J": ("rename treats a source value of None as absent", "rename of a key holding None plus a later consumer of the destination", True, ""),
+ "C03_I": ("per-expression result cache keyed by variable values (1 == 1.0 == True), kept across runs", "type-sensitive expression, equal-but-differently-typed values", True, ""),
+ "C03_J": ("sweep wrapper drops non-swept parameters supplied as None", "sweep node with a non-swept parameter explicitly None and a non-None default", True, ""),
+ "C04_I": ("sequence-signature memo (>= 32 values) keyed by the value tuple", "long explicit sequence and an ==-equal differently typed one earlier in the process", False, "every C04 shard contains 32- and 40-value integral sequences with their retyped twins; generator draws 32/40/65-value sequences"),
+ "C04_J": ("YAML 1.2 float resolver only in load_pipeline_from_yaml", "plain scalar like 1e3 (string for YAML 1.1)", False, "string values 1e3 / 2.5e6 / .5e2 in nested parameters; observed through the loader path added in round 4"),
+ "C05_I": ("fallback digest of non-JSON sequences uses repr(np.asarray(values)), abbreviated above 1000 elements", "> 1000 numpy values changed in the middle", False, "special clause: numpy integer sequences of 40 / 1000 / 1001 / 1201 values mutated at edge and interior positions"),
+ "C05_J": ("sweep class LRU keyed by the element's __name__", "two different classes with one __name__ as wrapped processor", False, "special clause: VNsA.Scale vs VNsB.Scale as class-valued processors"),
+ "C06_I": ("JSONL driver ensure_ascii=False", "lone surrogate in a record", True, ""),
+ "C06_J": ("environment pins gain a boolean git_dirty when SEMANTIVA_GIT_REV contains -dirty", "that environment variable", False, "C06 shards run under three settings of SEMANTIVA_GIT_REV"),
+ "C07_I": ("parameter source reported as default when the context value is the default object", "context value identical with the declared default (small ints, None, True, short strings)", False, "component VDefaultsProbe (int / str / bool defaults) and context values equal to the defaults"),
+ "C07_J": ("context delta compares truncated reprs at repr-only detail", "long values changed beyond 200 characters", True, ""),
+ "C08_I": ("max_runs pre-flight only for combine: combinatorial", "combine: by_position with an oversized single block", False, "promptness shapes are run under both combine modes"),
+ "C08_J": ("--run-space-max-runs tested by truthiness", "cap of 0 given on the command line", False, "the CLI clause passes the cap as a flag for half of its cases (patch rebased onto F31; original kept)"),
+ "C09_I": ("context summary reused when the new view == the previous one", "consecutive runs whose contexts are equal but differently typed, no context-writing node", False, "eq_typed launches: values [1, 1.0, True, 3], no per-run index, fixed sink path"),
+ "C09_J": ("expansion prunes rename entries of unselected columns in place before the CLI hashes the spec", "source with select and a rename entry outside the selection", False, "csv_select_rename sources"),
+ "C10_I": ("preprocessing provenance memoised per node id, refreshed only when the semantic id changes", "history T, Z (other semantic id), X (same id, other spelling), T", False, "a spelling twin (operands of + / * exchanged) after the semantic twin in the history"),
+ "C10_J": ("node uuid JSON uses default=str: non-JSON parameter values survive construction, the traced path still dumps strictly", "node parameter outside the JSON types", False, "odd_config: the unusual value sits in the node configuration"),
+ "C11_I": ("only the last ** argument of a call is validated", "two ** mappings, offender not last", True, ""),
+ "C11_J": ("configuration-path evaluator memo with reversed subset test", "same text accepted earlier for a node declaring a superset of names", False, "YAML-path history clause (superset first, then subset)"),
+ "C12_I": ("descending comparison chains mirrored without reversing the operator list", "chain mixing > and >=", False, "enumerated operator pairs (>,>=), (>=,>), (<,<=), (<=,<)"),
+ "C12_J": ("payload resolves processor classes once per reference string", "two sweep nodes over one processor with different expressions", False, "payload clause with two sweep nodes over the same processor"),
+ "C13_I": ("launch verdict cached once complete, not invalidated when another run attaches", "finalise between the run-space edges and a later pipeline_start", True, ""),
+ "C13_J": ("launch id sanitised for file names also inside run_space_start / end records", "launch id with characters outside [A-Za-z0-9._-]", False, "explicit launch ids with spaces, colons, slashes"),
+ "C14_I": ("drained channels swept only above 32 channels, publish to an existing channel without the table lock", "> 32 channels, publisher preempted between lookup and append", False, "scenario many_channels_existing (35 channels, preemption bound 1, capped)"),
+ "C14_J": ("literal fast path for patterns without * or ?", "character-class pattern", True, ""),
+ "C15_I": ("one failure-report context per worker", "two failing jobs reported by one worker before the master takes the first", False, "fail_also: a second failing job in the batch"),
+ "C15_J": ("ContextType.__str__ calls len() on values that have __len__", "job context holding a 0-d numpy array or a class object", False, "odd values in job contexts (table extended by a 0-d array and a class object)"),
+ "C16_I": ("IO adapter drops created keys the source also requires", "sweep of a source with t: from_context t_values", False, "variable shape ctx_key_is_own_values_key; created keys of non-probe nodes must EQUAL the processor's"),
+ "C16_J": ("default extraction compares with == (element-wise for arrays)", "parameter default that is a numpy array with >= 2 elements", False, "components VArrayDefaultOp / VArrayDefaultProbe, plain, sliced and swept"),
+ "C17_I": ("required-key bookkeeping after the node's own created keys", "node that requires and creates one key, key missing", True, ""),
+ "C17_J": ("nested pipeline.run_space keys win over the top-level block the CLI writes its options into", "nested block spelling out dry_run / max_runs plus the CLI flags", False, "run space under pipeline: (with explicit defaults) as a generated position; found F31 on the way"),
+ "C18_I": ("adapter cache with self-referencing values", "sweep on a DataSource, fresh Pipelines / queue", True, ""),
+ "C18_J": ("lru_cache on the parameter-default helper keyed by generated classes", "per-run generated class with a defaulted parameter", True, ""),
+}
+
 ALL = {}
 for k, v in R2.items():
     ALL[k] = v + (2,)
@@ -128,6 +167,8 @@ for k, v in R3.items():
     ALL[k] = v + (3,)
 for k, v in R4.items():
     ALL[k] = v + (4,)
+for k, v in R5.items():
+    ALL[k] = v + (5,)
 
 for name, (what, needs, first, strengthening, rnd) in sorted(ALL.items()):
     d = os.path.join(ROOT, "seeded", name)
